@@ -9,8 +9,11 @@
    `lex_one_ok ty w rest` = the first step of the tokenizer on w ++ rest is ONE token of type ty whose value is w,
    spanning exactly w, with no diagnostic at all.  `lex_one_diag name w rest` = the diagnostic `name` is reported with a
    highlight inside (or just after) w.  uw/ud (Unicode \w, \d) are irrelevant here: all members are ASCII.
-   Four shapes of valid constants are NOT accepted by the tool (genuine defects, KNOWN_FINDINGS.jsonl): each accept
-   theorem is stated under the boolean guard that excludes exactly them, and each has its `_refuted` witness. *)
+   Some shapes of valid constants are NOT accepted by the tool (genuine defects, KNOWN_FINDINGS.jsonl): each accept
+   theorem is stated under the boolean guard that excludes exactly them, and each has its `_refuted` witness.  The shape
+   K1 (hex constant whose leading b/B digits are followed by a decimal digit, 0xb3ba) was one of them; it is repaired in
+   the source (Prefix alternative 0[xX](?=[\da-fA-F]) of INT_LITERAL_PATTERN), guard_int no longer excludes it and
+   C11_accepted_hex_b_digits states it positively. *)
 From NV Require Import Model.Base Model.Diag Model.Lexer Spec.CConst Gen.LexTables Proofs.CConstProofs Proofs.LexTies.
 
 Theorem C11_accept_int_partial : forall w r, In w (int_consts integer_suffixes) -> In r (delims w) ->
@@ -56,10 +59,12 @@ Proof. exact reject_open. Qed.
 Print Assumptions C11_reject_open.
 
 (* refuted on the current tree: valid constants that are not accepted (one finding each) *)
-Theorem C11_refuted_hex_b_digits : shape_k1 (s "0xb3ba") = true /\ int_body (s "0xb3ba") = Some Hex /\
-  lex_one_ok (s "CONSTANT") (s "0xb3ba") (s ";") = false /\ lex_one_diag (s "INVALID_SUFFIX") (s "0xb3ba") (s ";") = true.
-Proof. exact refuted_k1. Qed.
-Print Assumptions C11_refuted_hex_b_digits.
+(* the former finding C11-hex-b-digits (K1), repaired in the source: positive now *)
+Theorem C11_accepted_hex_b_digits : shape_k1 (s "0xb3ba") = true /\ int_body (s "0xb3ba") = Some Hex /\
+  lex_one_ok (s "CONSTANT") (s "0xb3ba") (s ";") = true /\ lex_one_diag (s "INVALID_SUFFIX") (s "0xb3ba") (s ";") = false /\
+  shape_k1 (s "0XBB98Bl") = true /\ lex_one_ok (s "CONSTANT") (s "0XBB98Bl") (s ";") = true.
+Proof. exact accepted_k1_shape. Qed.
+Print Assumptions C11_accepted_hex_b_digits.
 Theorem C11_refuted_hex_e_suffix_sign :
   lex_one_ok (s "CONSTANT") (s "0x1eu") (s "+1") = false /\ lex_one_ok (s "CONSTANT") (s "0x1eu") (s ";") = true.
 Proof. exact refuted_hex_e_suffix. Qed.
@@ -125,17 +130,19 @@ Theorem C11_accept_binary_unbounded : forall (uw ud : N -> bool) b i bits sfx re
 Proof. exact accept_binary. Qed.
 Print Assumptions C11_accept_binary_unbounded.
 
-(* hexadecimal: under the two guards that exclude exactly the known findings C11-hex-b-digits / C11-hex-e-suffix-sign
-   (and the non-constant 0x1e+1) *)
+(* hexadecimal: ALL non-empty hexadecimal digit strings (since the repair of K1 also those whose leading b/B digits are
+   followed by a decimal digit: 0xb3ba); partial only for the guard that excludes the known finding C11-hex-e-suffix-sign
+   (and the non-constant 0x1e+1): after a last digit e/E the continuation must not start with + or - *)
 Theorem C11_accept_hex_unbounded_partial : forall (uw ud : N -> bool) xc hs sfx rest,
   is_xX xc = true -> forallb is_hex hs = true -> hs <> [] -> str_in sfx integer_suffixes = true -> delim rest = true ->
-  hex_guard_k1 hs = true -> hex_guard_e hs rest = true ->
+  hex_guard_e hs rest = true ->
   lex_one_ok_u uw ud (s "CONSTANT") ((48%N :: xc :: hs) ++ sfx) rest.
 Proof. exact accept_hex_partial. Qed.
 Print Assumptions C11_accept_hex_unbounded_partial.
 
-(* the first guard IS the negation of the refuted shape K1 of Spec/CConst.v; the second implies the negation of
-   shape_hex_e_suffix (it also excludes `0x1e+1` without suffix: one preprocessing number in C, family M4 here) *)
+(* hex_guard_k1 (no longer a hypothesis of anything) is the negation of the shape K1 of Spec/CConst.v: the theorem above
+   covers both sides of it.  hex_guard_e implies the negation of shape_hex_e_suffix (it also excludes `0x1e+1` without
+   suffix: one preprocessing number in C, family M4 here) *)
 Theorem C11_hex_guard_k1_is_not_shape_k1 : forall xc hs sfx, is_xX xc = true -> sfx_ok sfx = true ->
   shape_k1 ((48%N :: xc :: hs) ++ sfx) = negb (hex_guard_k1 hs).
 Proof. exact hex_guard_k1_is_not_shape_k1. Qed.
